@@ -29,6 +29,7 @@ pub struct QMon {
     pub ops: BTreeMap<&'static str, u64>,
     pub checked: u64,
     pub found: Vec<(String, String)>,
+    trace: bool,
 }
 
 pub type SharedQMon = Rc<RefCell<QMon>>;
@@ -159,7 +160,7 @@ fn allowed(p: &Pending) -> (Vec<Vec<Entry>>, Option<Vec<Location>>) {
 
 impl QMon {
     pub fn install() -> SharedQMon {
-        let m: SharedQMon = Rc::new(RefCell::new(QMon::default()));
+        let m: SharedQMon = Rc::new(RefCell::new(QMon { trace: std::env::var_os("QMON_TRACE").is_some(), ..QMon::default() }));
         let m2 = Rc::clone(&m);
         aranya_runtime::verif::set_queue_trace(Some(Box::new(move |ev| m2.borrow_mut().on_event(ev))));
         m
@@ -171,10 +172,16 @@ impl QMon {
 
     /// Queue objects were dropped or moved (replica crash / restart): forget what was pending.
     pub fn forget_all(&mut self) {
+        if self.trace {
+            eprintln!("QMON forget_all");
+        }
         self.last.clear();
     }
 
     fn on_event(&mut self, ev: QueueEvent) {
+        if self.trace {
+            eprintln!("QMON {:x} {:?} pre={}/{}", ev.queue, ev.op, ev.uncovered.len(), ev.covered.len());
+        }
         *self.ops.entry(op_name(&ev.op)).or_insert(0) += 1;
         if let QueueOp::Drained { loc } = ev.op {
             match self.last.get_mut(&ev.queue) {
